@@ -1,7 +1,9 @@
 (* Dependency satisfaction: both evaluators compute the Policy decision table, agree with each
    other, and see the installed versions only through the function a lookup form induces. *)
 From V.model Require Import Base RelLex RelParse DebVersion Sat.
+From V.model Require RelEdit RelEditTree.
 From V.proofs Require Import BaseP DebVersionP.
+
 
 (* ------------------------------------------------------------------ strings *)
 Lemma str_eqb_eq (a b : str) : str_eqb a b = true <-> a = b.
@@ -117,6 +119,71 @@ Proof. destruct c; reflexivity. Qed.
 Lemma op_eq_le_ge c : op_holds OpEq c = op_holds OpLe c && op_holds OpGe c.
 Proof. destruct c; reflexivity. Qed.
 
+
+
+(* ------------------------------------------------------------------ lists: find under splices *)
+Lemma find_app {A} (p : A -> bool) (a b : list A) :
+  find p (a ++ b) = match find p a with Some x => Some x | None => find p b end.
+Proof. induction a as [|x a IH]; [reflexivity|]. cbn [app find]. destruct (p x); [reflexivity|exact IH]. Qed.
+
+Lemma find_none_all {A} (p : A -> bool) (l : list A) : (forall x, In x l -> p x = false) -> find p l = None.
+Proof.
+  induction l as [|x l IH]; intros H; [reflexivity|]. cbn [find]. rewrite (H x (or_introl eq_refl)).
+  apply IH. intros y Hy. apply H. right. exact Hy.
+Qed.
+
+Lemma find_insert_at_other {A} (q : A -> bool) (ins l : list A) i :
+  (forall x, In x ins -> q x = false) -> find q (RelEdit.insert_at i ins l) = find q l.
+Proof.
+  intros H. unfold RelEdit.insert_at. rewrite <- (firstn_skipn i l) at 3. rewrite !find_app, (find_none_all q ins H).
+  reflexivity.
+Qed.
+
+Lemma find_insert_at_new {A} (p : A -> bool) (w new : A) (l : list A) i :
+  (forall x, In x l -> p x = false) -> p w = false -> p new = true ->
+  find p (RelEdit.insert_at i [w; new] l) = Some new.
+Proof.
+  intros Hl Hw Hn. unfold RelEdit.insert_at. rewrite find_app, (find_none_all p (firstn i l)).
+  - cbn [app find]. rewrite Hw, Hn. reflexivity.
+  - intros x Hx. apply Hl. rewrite <- (firstn_skipn i l). apply in_or_app. left. exact Hx.
+Qed.
+
+Lemma find_index_none {A} (p : A -> bool) (l : list A) :
+  RelEdit.find_index p l = None -> forall x, In x l -> p x = false.
+Proof.
+  induction l as [|y l IH]; intros H x Hx; [destruct Hx|]. cbn [RelEdit.find_index] in H.
+  destruct (p y) eqn:E; [discriminate|]. destruct (RelEdit.find_index p l); [discriminate|].
+  destruct Hx as [<-|Hx]; [exact E|apply IH; [reflexivity|exact Hx]].
+Qed.
+
+Lemma find_replace_at {A} (p : A -> bool) (new : A) (l : list A) : forall i,
+  RelEdit.find_index p l = Some i -> p new = true -> find p (RelEditTree.replace_at i new l) = Some new.
+Proof.
+  induction l as [|y l IH]; intros i H Hn; cbn [RelEdit.find_index] in H; [discriminate|].
+  destruct (p y) eqn:E.
+  - injection H as <-. unfold RelEditTree.replace_at. cbn [firstn skipn app find]. rewrite Hn. reflexivity.
+  - destruct (RelEdit.find_index p l) as [j|]; [|discriminate]. injection H as <-.
+    unfold RelEditTree.replace_at in *. cbn [firstn skipn app find]. rewrite E. apply IH; [reflexivity|exact Hn].
+Qed.
+
+Lemma find_replace_at_other {A} (p q : A -> bool) (new : A) (l : list A) : forall i,
+  RelEdit.find_index p l = Some i -> (forall x, p x = true -> q x = false) -> q new = false ->
+  find q (RelEditTree.replace_at i new l) = find q l.
+Proof.
+  induction l as [|y l IH]; intros i H Hpq Hn; cbn [RelEdit.find_index] in H; [discriminate|].
+  destruct (p y) eqn:E.
+  - injection H as <-. unfold RelEditTree.replace_at. cbn [firstn skipn app find]. rewrite Hn, (Hpq y E). reflexivity.
+  - destruct (RelEdit.find_index p l) as [j|]; [|discriminate]. injection H as <-.
+    unfold RelEditTree.replace_at in *. cbn [firstn skipn app find]. destruct (q y); [reflexivity|].
+    apply IH; [reflexivity|exact Hpq|exact Hn].
+Qed.
+
+Lemma find_ext {A} (p q : A -> bool) (l : list A) : (forall x, p x = q x) -> find p l = find q l.
+Proof. intros H. induction l as [|x l IH]; [reflexivity|]. cbn [find]. rewrite H, IH. reflexivity. Qed.
+
+Lemma node_is_eq k (e : rtree) : RelEdit.node_is k e = is_node_of k e.
+Proof. destruct e; reflexivity. Qed.
+
 Section SatP.
   Variable V : Type.
   Variable vcmp : V -> V -> res comparison.
@@ -144,7 +211,7 @@ Section SatP.
   Notation tree_field := (tree_field V vparse).
 
   (* ---------------- lossless = lossy on the typed view, whatever the comparison does ------- *)
-  Lemma ll_rel_agree r x pv : tree_rel r = Ok x -> ll_rel_sat r pv = lossy_rel_sat x pv.
+  Lemma ll_rel_agree r x g : tree_rel r = Ok x -> ll_rel_sat r g = lossy_rel_sat x (LFn g).
   Proof.
     unfold Sat.tree_rel, ll_relation_satisfied_by, lossy_relation_satisfied_by. intros H.
     destruct (ll_name r) as [n| | |]; cbn [bind] in *; try discriminate.
@@ -152,19 +219,20 @@ Section SatP.
     injection H as <-. cbn [r_name r_ver]. reflexivity.
   Qed.
 
-  Lemma ll_entry_agree e xs pv :
-    tree_entry e = Ok xs -> ll_entry_sat e pv = iter_any (fun r => lossy_rel_sat r pv) xs.
+  Lemma ll_entry_agree e xs g :
+    tree_entry e = Ok xs -> ll_entry_sat e g = iter_any (fun r => lossy_rel_sat r (LFn g)) xs.
   Proof.
     unfold Sat.tree_entry, ll_entry_satisfied_by. intros H. apply mapM_ok_inv in H.
     eapply iter_any_F2; [exact H|]. intros r x Hrx. apply ll_rel_agree. exact Hrx.
   Qed.
 
-  Theorem ll_agree_lossy t f pv : tree_field t = Ok f -> ll_sat t pv = lossy_sat f pv.
+  Theorem ll_agree_lossy t f g : tree_field t = Ok f -> ll_sat t g = lossy_sat f g.
   Proof.
     unfold Sat.tree_field, ll_relations_satisfied_by, lossy_relations_satisfied_by. intros H.
     apply mapM_ok_inv in H. eapply iter_all_F2; [exact H|]. intros e xs Hexs.
     apply ll_entry_agree. exact Hexs.
   Qed.
+
 
   (* ---------------- lookups ---------------- *)
   Lemma hm_get_remove_other (m : list (str * V)) k n : n <> k -> hm_get (hm_remove V m k) n = hm_get m n.
@@ -211,247 +279,239 @@ Section SatP.
   Lemma induced_pair n v : induced (LPair n v) = fun n' => if str_eqb n' n then Some v else None.
   Proof. reflexivity. Qed.
 
+
   (* every form can be replaced by the closure form of its induced function *)
   Lemma lossy_rel_sat_ext r p q :
     lookup_version p (r_name r) = lookup_version q (r_name r) -> lossy_rel_sat r p = lossy_rel_sat r q.
   Proof. unfold lossy_relation_satisfied_by. intros ->. reflexivity. Qed.
 
-  Theorem lossy_sat_ext f p q :
-    (forall n, lookup_version p n = lookup_version q n) -> lossy_sat f p = lossy_sat f q.
+  Lemma lossy_rel_sat_induced r pv : lossy_rel_sat r pv = lossy_rel_sat r (LFn (lookup_version pv)).
+  Proof. apply lossy_rel_sat_ext. reflexivity. Qed.
+
+  (* the hand-written nesting over a map or a pair = the crate's evaluator on the induced closure *)
+  Theorem by_relation_induced f pv : by_relation V vcmp f pv = lossy_sat f (lookup_version pv).
   Proof.
-    intros H. unfold lossy_relations_satisfied_by. apply iter_all_ext. intros e _.
-    apply iter_any_ext. intros r _. apply lossy_rel_sat_ext. apply H.
+    unfold by_relation, lossy_relations_satisfied_by. apply iter_all_ext. intros e _.
+    apply iter_any_ext. intros r _. apply lossy_rel_sat_induced.
   Qed.
 
-  Theorem ll_sat_ext t p q :
-    (forall n, lookup_version p n = lookup_version q n) -> ll_sat t p = ll_sat t q.
+  Theorem lossy_sat_ext f (g h : str -> option V) :
+    (forall n, g n = h n) -> lossy_sat f g = lossy_sat f h.
+  Proof.
+    intros H. unfold lossy_relations_satisfied_by. apply iter_all_ext. intros e _.
+    apply iter_any_ext. intros r _. apply lossy_rel_sat_ext. cbn [lookup_version]. apply H.
+  Qed.
+
+  Theorem ll_sat_ext t (g h : str -> option V) :
+    (forall n, g n = h n) -> ll_sat t g = ll_sat t h.
   Proof.
     intros H. unfold ll_relations_satisfied_by. apply iter_all_ext. intros e _.
     unfold ll_entry_satisfied_by. apply iter_any_ext. intros r _.
-    unfold ll_relation_satisfied_by. destruct (ll_name r); cbn [bind]; try reflexivity. rewrite H. reflexivity.
+    unfold ll_relation_satisfied_by. destruct (ll_name r); cbn [bind lookup_version]; try reflexivity. rewrite H. reflexivity.
   Qed.
 
   (* ---------------- the constructors produce trees whose typed view is the input ----------- *)
   Definition rel_roundtrips (r : rel) : Prop :=
     match r_ver r with Some (_, v) => vparse (vshow v) = Some v | None => True end.
 
-  Lemma one_char_toks o : exists cts, mapM one_char_tok (show_vop o) = Ok cts /\ texts cts = show_vop o.
-  Proof. destruct o; eexists; split; reflexivity. Qed.
+  Lemma vc_toks_text o : texts (RelEdit.vc_toks (vcn_of o)) = show_vop o.
+  Proof. destruct o; reflexivity. Qed.
 
-  Lemma relation_new_view r : rel_roundtrips r ->
-    exists t, relation_new V vshow (r_name r) (r_ver r) = Ok t /\ tree_rel t = Ok r /\ is_node_of RELATION t = true.
+  Lemma version_node_read o v : vparse (vshow v) = Some v ->
+    find (is_node_of CONSTRAINT) (children (RelEdit.version_node (vcn_of o) (vshow v))) = Some (Node CONSTRAINT (RelEdit.vc_toks (vcn_of o))) /\
+    version_string (RelEdit.version_node (vcn_of o) (vshow v)) = Some (vshow v).
   Proof.
-    destruct r as [n [[o v]|]]; unfold rel_roundtrips; cbn [r_name r_ver]; intros H.
-    - unfold relation_new. destruct (one_char_toks o) as (cts & E & Ht). rewrite E. cbn [bind].
-      eexists. split; [reflexivity|]. split; [|reflexivity].
-      unfold Sat.tree_rel, ll_name, ll_version, first_ident. cbn [children find is_tok_of is_node_of rkind_eqb rkind_code N.eqb Pos.eqb bind].
-      rewrite (version_string_tok _ _ _ _ H).
-      rewrite text_node, Ht, parse_show_vop, !text_tok, H. reflexivity.
-    - eexists. split; [reflexivity|]. split; reflexivity.
+    intros H. split; [reflexivity|]. unfold RelEdit.version_node, RelEdit.t_space. apply version_string_tok. exact H.
   Qed.
 
-  Lemma filter_sep_by (p : rtree -> bool) sep l :
-    forallb p l = true -> forallb (fun x => negb (p x)) sep = true -> filter p (sep_by sep l) = l.
+  (* a relation node whose first VERSION child is the node set_version / Relation::new build *)
+  Lemma tree_rel_with_version k cs n o v :
+    find (is_tok_of IDENT) cs = Some (Tok IDENT n) ->
+    find (is_node_of VERSION) cs = Some (RelEdit.version_node (vcn_of o) (vshow v)) ->
+    vparse (vshow v) = Some v ->
+    tree_rel (Node k cs) = Ok (mk_rel n (Some (o, v))).
   Proof.
-    intros Hl Hs. induction l as [|x r IH]; [reflexivity|].
-    cbn [forallb] in Hl. apply andb_true_iff in Hl. destruct Hl as [Hx Hr].
-    destruct r as [|y r']; [cbn; rewrite Hx; reflexivity|].
-    change (sep_by sep (x :: y :: r')) with (x :: sep ++ sep_by sep (y :: r')).
-    cbn [filter]. rewrite Hx. f_equal. rewrite filter_app, (IH Hr).
-    assert (Hn : filter p sep = []).
-    { clear -Hs. induction sep as [|s sep IH]; [reflexivity|]. cbn [forallb] in Hs.
-      apply andb_true_iff in Hs. destruct Hs as [H1 H2]. cbn [filter].
-      destruct (p s); [discriminate|]. apply IH. exact H2. }
-    rewrite Hn. reflexivity.
+    intros H1 H2 Hv. destruct (version_node_read o v Hv) as [Hc Hs].
+    unfold Sat.tree_rel, ll_name, first_ident, ll_version. cbn [children]. rewrite H1, H2, Hc, Hs. cbn [bind].
+    rewrite text_node, vc_toks_text, parse_show_vop, Hv. reflexivity.
+  Qed.
+
+  Lemma relation_new_view r : rel_roundtrips r ->
+    tree_rel (relation_new V vshow (r_name r) (r_ver r)) = Ok r /\
+    is_node_of RELATION (relation_new V vshow (r_name r) (r_ver r)) = true.
+  Proof.
+    destruct r as [n [[o v]|]]; unfold rel_roundtrips; cbn [r_name r_ver]; intros H; (split; [|reflexivity]).
+    - unfold relation_new, verspec_of, RelEdit.relation_new. apply tree_rel_with_version; [reflexivity|reflexivity|exact H].
+    - reflexivity.
   Qed.
 
   Lemma rnodes_pred k (x : rtree) : is_node x && rkind_eqb (ekind x) k = is_node_of k x.
   Proof. destruct x; reflexivity. Qed.
 
+  Lemma filter_join_relations (p : rtree -> bool) rs : forall i,
+    forallb p rs = true -> (forall k s, p (Tok k s) = false) ->
+    filter p (RelEdit.join_relations RelEdit.fixed i rs) = rs.
+  Proof.
+    induction rs as [|r rs IH]; intros i Hl Ht; [reflexivity|].
+    cbn [forallb] in Hl. apply andb_true_iff in Hl. destruct Hl as [Hr Hrs].
+    cbn [RelEdit.join_relations]. rewrite filter_app. cbn [filter]. rewrite Hr, (IH (S i) Hrs Ht).
+    destruct i; cbn [filter app]; [reflexivity|]. unfold RelEdit.t_space. rewrite !Ht. reflexivity.
+  Qed.
+
+  Lemma filter_join_entries (p : rtree -> bool) es : forall i,
+    forallb p es = true -> (forall k s, p (Tok k s) = false) ->
+    filter p (RelEdit.join_entries i es) = es.
+  Proof.
+    induction es as [|e es IH]; intros i Hl Ht; [reflexivity|].
+    cbn [forallb] in Hl. apply andb_true_iff in Hl. destruct Hl as [He Hes].
+    cbn [RelEdit.join_entries]. rewrite filter_app. cbn [filter]. rewrite He, (IH (S i) Hes Ht).
+    destruct i; cbn [filter app]; [reflexivity|]. unfold RelEdit.t_comma, RelEdit.t_space. rewrite !Ht. reflexivity.
+  Qed.
+
   Lemma r_relations_entry_from rs :
     forallb (is_node_of RELATION) rs = true -> r_relations (entry_from rs) = rs.
   Proof.
-    intros H. unfold r_relations, rnodes_of_kind, entry_from. cbn [children].
+    intros H. unfold r_relations, rnodes_of_kind, entry_from, RelEdit.entry_from_relations. cbn [children].
     rewrite (filter_ext _ (is_node_of RELATION)) by (intros x; apply rnodes_pred).
-    apply filter_sep_by; [exact H|reflexivity].
+    apply filter_join_relations; [exact H|reflexivity].
   Qed.
 
   Lemma r_entries_relations_from es :
     forallb (is_node_of ENTRY) es = true -> r_entries (relations_from es) = es.
   Proof.
-    intros H. unfold r_entries, rnodes_of_kind, relations_from. cbn [children].
+    intros H. unfold r_entries, rnodes_of_kind, relations_from, RelEdit.relations_from_entries. cbn [children].
     rewrite (filter_ext _ (is_node_of ENTRY)) by (intros x; apply rnodes_pred).
-    apply filter_sep_by; [exact H|reflexivity].
+    apply filter_join_entries; [exact H|reflexivity].
   Qed.
 
-  Lemma build_entry_view (e : list rel) : Forall rel_roundtrips e ->
-    exists t, build_entry V vshow e = Ok t /\ tree_entry t = Ok e /\ is_node_of ENTRY t = true.
+  (* assembling: alternatives with the right views give an entry / a field with the right view *)
+  Lemma entry_from_view rs (e : list rel) :
+    mapM tree_rel rs = Ok e -> forallb (is_node_of RELATION) rs = true -> tree_entry (entry_from rs) = Ok e.
+  Proof. intros H1 H2. unfold Sat.tree_entry. rewrite (r_relations_entry_from rs H2). exact H1. Qed.
+
+  Lemma relations_from_view es (f : field) :
+    mapM tree_entry es = Ok f -> forallb (is_node_of ENTRY) es = true -> tree_field (relations_from es) = Ok f.
+  Proof. intros H1 H2. unfold Sat.tree_field. rewrite (r_entries_relations_from es H2). exact H1. Qed.
+
+  Lemma build_entry_view (e : list rel) : Forall rel_roundtrips e -> tree_entry (build_entry V vshow e) = Ok e.
   Proof.
-    intros H. unfold build_entry.
-    assert (Hrs : exists rs, mapM (fun r => relation_new V vshow (r_name r) (r_ver r)) e = Ok rs /\
-                             mapM tree_rel rs = Ok e /\ forallb (is_node_of RELATION) rs = true).
-    { induction H as [|r e Hr He IH]; [exists []; repeat split; reflexivity|].
-      destruct (relation_new_view r Hr) as (t & Et & Vt & Kt). destruct IH as (rs & E1 & E2 & E3).
-      exists (t :: rs). cbn [mapM forallb]. rewrite Et, Vt, Kt. cbn [bind]. rewrite E1, E2, E3. repeat split; reflexivity. }
-    destruct Hrs as (rs & E1 & E2 & E3). rewrite E1. cbn [rmap bind].
-    eexists. split; [reflexivity|]. split; [|reflexivity].
-    unfold Sat.tree_entry. rewrite (r_relations_entry_from rs E3). exact E2.
+    intros H. unfold build_entry. apply entry_from_view.
+    - induction H as [|r e Hr He IH]; [reflexivity|]. cbn [map mapM].
+      rewrite (proj1 (relation_new_view r Hr)). cbn [bind]. rewrite IH. reflexivity.
+    - induction H as [|r e Hr He IH]; [reflexivity|]. cbn [map forallb].
+      rewrite (proj2 (relation_new_view r Hr)), IH. reflexivity.
   Qed.
 
   Theorem build_field_view (f : field) : Forall (Forall rel_roundtrips) f ->
-    exists t, build_field V vshow f = Ok t /\ tree_field t = Ok f.
+    tree_field (build_field V vshow f) = Ok f.
   Proof.
-    intros H. unfold build_field.
-    assert (Hes : exists es, mapM (build_entry V vshow) f = Ok es /\
-                             mapM tree_entry es = Ok f /\ forallb (is_node_of ENTRY) es = true).
-    { induction H as [|e f He Hf IH]; [exists []; repeat split; reflexivity|].
-      destruct (build_entry_view e He) as (t & Et & Vt & Kt). destruct IH as (es & E1 & E2 & E3).
-      exists (t :: es). cbn [mapM forallb]. rewrite Et, Vt, Kt. cbn [bind]. rewrite E1, E2, E3. repeat split; reflexivity. }
-    destruct Hes as (es & E1 & E2 & E3). rewrite E1. cbn [rmap bind].
-    eexists. split; [reflexivity|]. unfold Sat.tree_field. rewrite (r_entries_relations_from es E3). exact E2.
+    intros H. unfold build_field. apply relations_from_view.
+    - induction H as [|e f He Hf IH]; [reflexivity|]. cbn [map mapM].
+      rewrite (build_entry_view e He). cbn [bind]. rewrite IH. reflexivity.
+    - induction H as [|e f He Hf IH]; [reflexivity|]. cbn [map forallb]. rewrite IH. reflexivity.
   Qed.
 
-  (* ---------------- set_version (fixed code) writes what version() reads back ------------- *)
-  Lemma replace_first_find {A} (p : A -> bool) new (l l' : list A) :
-    replace_first p new l = Some l' -> p new = true -> find p l' = Some new.
-  Proof.
-    revert l'. induction l as [|x r IH]; intros l' H Hn; cbn [replace_first] in H; [discriminate|].
-    destruct (p x) eqn:E.
-    - injection H as <-. cbn [find]. rewrite Hn. reflexivity.
-    - destruct (replace_first p new r) as [r'|]; [|discriminate]. injection H as <-.
-      cbn [find]. rewrite E. apply IH; [reflexivity|exact Hn].
-  Qed.
-
-  Lemma replace_first_find_other {A} (p q : A -> bool) new (l l' : list A) :
-    replace_first p new l = Some l' -> (forall x, p x = true -> q x = false) -> q new = false ->
-    find q l' = find q l.
-  Proof.
-    revert l'. induction l as [|x r IH]; intros l' H Hpq Hn; cbn [replace_first] in H; [discriminate|].
-    destruct (p x) eqn:E.
-    - injection H as <-. cbn [find]. rewrite Hn, (Hpq x E). reflexivity.
-    - destruct (replace_first p new r) as [r'|]; [|discriminate]. injection H as <-.
-      cbn [find]. destruct (q x); [reflexivity|]. apply IH; [reflexivity|exact Hpq|exact Hn].
-  Qed.
-
-  Lemma replace_first_none {A} (p : A -> bool) new (l : list A) :
-    replace_first p new l = None -> forall x, In x l -> p x = false.
-  Proof.
-    induction l as [|y r IH]; intros H x Hx; [destruct Hx|]. cbn [replace_first] in H.
-    destruct (p y) eqn:E; [discriminate|].
-    destruct (replace_first p new r); [discriminate|].
-    destruct Hx as [<-|Hx]; [exact E|apply IH; [reflexivity|exact Hx]].
-  Qed.
-
-  Lemma insert_after_first_find {A} (q : A -> bool) ins (l l' : list A) :
-    insert_after_first q ins l = Some l' -> find q l' = find q l.
-  Proof.
-    revert l'. induction l as [|x r IH]; intros l' H; cbn [insert_after_first] in H; [discriminate|].
-    destruct (q x) eqn:E.
-    - injection H as <-. cbn [find]. rewrite E. reflexivity.
-    - destruct (insert_after_first q ins r) as [r'|]; [|discriminate]. injection H as <-.
-      cbn [find]. rewrite E. apply IH. reflexivity.
-  Qed.
-
-  Lemma insert_after_first_find_new {A} (p q : A -> bool) w new (l l' : list A) :
-    insert_after_first q [w; new] l = Some l' -> (forall x, In x l -> p x = false) ->
-    p w = false -> p new = true -> find p l' = Some new.
-  Proof.
-    revert l'. induction l as [|x r IH]; intros l' H Hl Hw Hn; cbn [insert_after_first] in H; [discriminate|].
-    assert (Hx : p x = false) by (apply Hl; left; reflexivity).
-    destruct (q x).
-    - injection H as <-. cbn [find app]. rewrite Hx, Hw, Hn. reflexivity.
-    - destruct (insert_after_first q [w; new] r) as [r'|]; [|discriminate]. injection H as <-.
-      cbn [find]. rewrite Hx. apply IH; [reflexivity| |exact Hw|exact Hn].
-      intros y Hy. apply Hl. right. exact Hy.
-  Qed.
-
-  Lemma insert_after_first_none {A} (q : A -> bool) ins (l : list A) :
-    insert_after_first q ins l = None -> find q l = None.
-  Proof.
-    induction l as [|x r IH]; intros H; [reflexivity|]. cbn [insert_after_first] in H. cbn [find].
-    destruct (q x); [discriminate|]. destruct (insert_after_first q ins r); [discriminate|]. apply IH. reflexivity.
-  Qed.
-
-  Lemma constraint_tokens_text vc : texts (constraint_tokens vc) = show_vop vc.
-  Proof. destruct vc; reflexivity. Qed.
-
+  (* ---------------- set_version writes what version() reads back ------------- *)
   (* whatever the relation looked like: after set_version(Some((vc, v))) its name is unchanged
      and version() returns (vc, v) *)
   Theorem set_version_view (r : rtree) n vc v :
     is_node r = true -> first_ident r = Some n -> vparse (vshow v) = Some v ->
-    tree_rel (set_version_some V vshow (@constraint_tokens) r vc v) = Ok (mk_rel n (Some (vc, v))) /\
-    is_node_of (ekind r) (set_version_some V vshow (@constraint_tokens) r vc v) = true.
+    tree_rel (set_version_some V vshow r vc v) = Ok (mk_rel n (Some (vc, v))) /\
+    is_node_of (ekind r) (set_version_some V vshow r vc v) = true.
   Proof.
     destruct r as [k s|k cs]; [discriminate|]. intros _ Hn Hv.
-    set (new := version_node V vshow (constraint_tokens vc) v).
-    assert (Hres : forall cs', find (is_tok_of IDENT) cs' = find (is_tok_of IDENT) cs ->
-                               find (is_node_of VERSION) cs' = Some new ->
-                               tree_rel (Node k cs') = Ok (mk_rel n (Some (vc, v)))).
-    { intros cs' H1 H2. unfold Sat.tree_rel, ll_name, first_ident in *. cbn [children] in *.
-      rewrite H1. destruct (find (is_tok_of IDENT) cs) as [tk|]; [|discriminate]. injection Hn as Hn.
-      rewrite Hn. cbn [bind]. unfold ll_version. cbn [children]. rewrite H2.
-      subst new. unfold version_node at 1 2. cbn [children find is_node_of is_tok_of rkind_eqb rkind_code N.eqb Pos.eqb].
-      rewrite (version_string_tok _ _ _ _ Hv).
-      rewrite text_node, constraint_tokens_text, parse_show_vop, Hv. reflexivity. }
-    assert (Hk : forall cs', is_node_of (ekind (Node k cs)) (Node k cs') = true).
-    { intros cs'. cbn. unfold rkind_eqb. apply N.eqb_refl. }
-    cbn [set_version_some]. fold new.
-    destruct (replace_first (is_node_of VERSION) new cs) as [cs'|] eqn:E1.
-    - split; [|apply Hk]. apply Hres.
-      + eapply replace_first_find_other; [exact E1| |reflexivity].
+    split; [|cbn; unfold rkind_eqb; apply N.eqb_refl].
+    set (new := RelEdit.version_node (vcn_of vc) (vshow v)).
+    unfold first_ident in Hn. cbn [children] in Hn.
+    destruct (find (is_tok_of IDENT) cs) as [tk|] eqn:Ek; [|discriminate]. injection Hn as Hn.
+    assert (Htk : tk = Tok IDENT n).
+    { apply find_some in Ek. destruct Ek as [_ Ek]. destruct tk as [k' s'|]; [|discriminate].
+      cbn in Ek, Hn. subst s'. f_equal. destruct k'; try discriminate. reflexivity. }
+    subst tk.
+    cbn [set_version_some RelEditTree.set_version_cs]. fold new.
+    destruct (RelEdit.find_index (RelEdit.node_is VERSION) cs) as [i|] eqn:Ei.
+    - apply tree_rel_with_version; [| |exact Hv].
+      + rewrite (find_replace_at_other (RelEdit.node_is VERSION) (is_tok_of IDENT) new cs i Ei); [exact Ek| |reflexivity].
         intros x Hx. destruct x; [discriminate|reflexivity].
-      + eapply replace_first_find; [exact E1|reflexivity].
-    - pose proof (replace_first_none _ _ _ E1) as Hnone.
-      destruct (insert_after_first (is_tok_of IDENT) [Tok WHITESPACE [32%N]; new] cs) as [cs'|] eqn:E2.
-      + split; [|apply Hk]. apply Hres.
-        * eapply insert_after_first_find. exact E2.
-        * eapply insert_after_first_find_new; [exact E2|exact Hnone|reflexivity|reflexivity].
-      + apply insert_after_first_none in E2. unfold first_ident in Hn. cbn [children] in Hn.
-        rewrite E2 in Hn. discriminate.
+      + rewrite (find_ext _ (RelEdit.node_is VERSION)) by (intros x; symmetry; apply node_is_eq).
+        apply find_replace_at; [exact Ei|reflexivity].
+    - apply tree_rel_with_version; [| |exact Hv].
+      + rewrite find_insert_at_other; [exact Ek|]. intros x [<-|[<-|[]]]; reflexivity.
+      + apply find_insert_at_new; [|reflexivity|reflexivity].
+        intros x Hx. rewrite <- node_is_eq. apply (find_index_none _ cs Ei x Hx).
   Qed.
 
-  Lemma relation_new_named n o : exists t,
-    relation_new V vshow n o = Ok t /\ is_node t = true /\ ekind t = RELATION /\ first_ident t = Some n.
+  (* set_archqual leaves the name alone *)
+  Lemma set_archqual_named (r : rtree) n q :
+    is_node r = true -> first_ident r = Some n ->
+    is_node (set_archqual r q) = true /\ first_ident (set_archqual r q) = Some n /\ ekind (set_archqual r q) = ekind r.
   Proof.
-    destruct o as [[vc v]|].
-    - unfold relation_new. destruct (one_char_toks vc) as (cts & E & _). rewrite E. cbn [bind].
-      eexists. repeat split.
-    - eexists. repeat split.
+    destruct r as [k s|k cs]; [discriminate|]. intros _ Hn. split; [reflexivity|]. split; [|reflexivity].
+    unfold first_ident in *. cbn [set_archqual children] in *. unfold RelEditTree.set_archqual_cs.
+    destruct (RelEdit.find_index (RelEdit.node_is ARCHQUAL) cs) as [i|] eqn:Ei.
+    - rewrite (find_replace_at_other (RelEdit.node_is ARCHQUAL) (is_tok_of IDENT) _ cs i Ei); [exact Hn| |reflexivity].
+      intros x Hx. destruct x; [discriminate|reflexivity].
+    - rewrite find_insert_at_other; [exact Hn|]. intros x [<-|[]]. reflexivity.
   Qed.
 
-  Lemma sv_relation_view b (r : rel) : rel_roundtrips r ->
-    exists t, sv_relation V vshow (@constraint_tokens) b r = Ok t /\ tree_rel t = Ok r /\ is_node_of RELATION t = true.
+  (* the relations the harness starts from *)
+  Definition start_ok (name : str) (t : rtree) : Prop :=
+    is_node t = true /\ ekind t = RELATION /\ first_ident t = Some name.
+  (* position 3 parses "name:any [amd64] <!nocheck>": that the reader returns a RELATION node named
+     [name] is a fact about the reader (proofs/SatTextP.v derives it from C10 for every package name) *)
+  Definition parsed_start_ok (name : str) : Prop :=
+    exists t, relation_from_str (decorated name) = Ok t /\ start_ok name t.
+
+  Lemma sv_start_ok mode name v : parsed_start_ok name ->
+    exists t, sv_start V vshow mode name v = Ok t /\ start_ok name t.
   Proof.
-    destruct r as [n [[vc v]|]]; unfold rel_roundtrips, sv_relation; cbn [r_name r_ver]; intros H.
-    - destruct (relation_new_named n (if b then Some (OpEq, v) else None)) as (t & Et & Hnode & Hkind & Hname).
+    intros (tp & Ep & Hp). destruct mode as [|[|[|m]]]; cbn [sv_start].
+    - eexists. split; [reflexivity|]. repeat split.
+    - eexists. split; [reflexivity|]. repeat split.
+    - eexists. split; [reflexivity|].
+      destruct (set_archqual_named (relation_new V vshow name None) name any_str eq_refl eq_refl) as (H1 & H2 & H3).
+      repeat split; assumption.
+    - exists tp. split; assumption.
+  Qed.
+
+  Lemma sv_relation_view mode (r : rel) : rel_roundtrips r -> parsed_start_ok (r_name r) ->
+    exists t, sv_relation V vshow mode r = Ok t /\ tree_rel t = Ok r /\ is_node_of RELATION t = true.
+  Proof.
+    destruct r as [n [[vc v]|]]; unfold rel_roundtrips, sv_relation; cbn [r_name r_ver]; intros H Hp.
+    - destruct (sv_start_ok mode n v Hp) as (t & Et & Hnode & Hkind & Hname).
       rewrite Et. cbn [rmap bind]. eexists. split; [reflexivity|].
       destruct (set_version_view t n vc v Hnode Hname H) as [H1 H2]. rewrite Hkind in H2. split; assumption.
-    - apply (relation_new_view (mk_rel n None)). exact I.
+    - eexists. split; [reflexivity|]. split; reflexivity.
   Qed.
 
-  Theorem sv_field_view (f : field) : Forall (Forall rel_roundtrips) f ->
-    exists t, sv_field V vshow (@constraint_tokens) f = Ok t /\ tree_field t = Ok f.
+  Theorem sv_field_view (f : field) :
+    Forall (Forall rel_roundtrips) f -> Forall (Forall (fun r => parsed_start_ok (r_name r))) f ->
+    exists t, sv_field V vshow f = Ok t /\ tree_field t = Ok f.
   Proof.
-    intros H. unfold sv_field.
-    assert (Hent : forall e, Forall rel_roundtrips e -> forall b,
-              exists rs, sv_relations V vshow (@constraint_tokens) b e = Ok rs /\
+    intros H Hp. unfold sv_field.
+    assert (Hent : forall e, Forall rel_roundtrips e -> Forall (fun r => parsed_start_ok (r_name r)) e -> forall m,
+              exists rs, sv_relations V vshow m e = Ok rs /\
                          mapM tree_rel rs = Ok e /\ forallb (is_node_of RELATION) rs = true).
-    { intros e He. induction He as [|r e Hr He IH]; intros b; [exists []; repeat split; reflexivity|].
-      destruct (sv_relation_view b r Hr) as (t & Et & Vt & Kt). destruct (IH (negb b)) as (rs & E1 & E2 & E3).
+    { intros e He. induction He as [|r e Hr He IH]; intros Hpe m; [exists []; repeat split; reflexivity|].
+      inversion Hpe as [|? ? Hpr Hpe']; subst.
+      destruct (sv_relation_view m r Hr Hpr) as (t & Et & Vt & Kt).
+      destruct (IH Hpe' (match m with 3 => 0 | m0 => S m0 end)) as (rs & E1 & E2 & E3).
       exists (t :: rs). cbn [sv_relations mapM forallb]. rewrite Et, Vt, Kt. cbn [bind]. rewrite E1, E2, E3.
       repeat split; reflexivity. }
-    assert (Hes : exists es, mapM (fun e => rmap entry_from (sv_relations V vshow (@constraint_tokens) false e)) f = Ok es /\
+    assert (Hes : exists es, mapM (fun e => rmap entry_from (sv_relations V vshow 0 e)) f = Ok es /\
                              mapM tree_entry es = Ok f /\ forallb (is_node_of ENTRY) es = true).
-    { induction H as [|e f He Hf IH]; [exists []; repeat split; reflexivity|].
-      destruct (Hent e He false) as (rs & R1 & R2 & R3). destruct IH as (es & E1 & E2 & E3).
+    { revert Hp. induction H as [|e f He Hf IH]; intros Hp; [exists []; repeat split; reflexivity|].
+      inversion Hp as [|? ? Hpe Hpf]; subst.
+      destruct (Hent e He Hpe 0) as (rs & R1 & R2 & R3). destruct (IH Hpf) as (es & E1 & E2 & E3).
       exists (entry_from rs :: es). cbn [mapM forallb]. rewrite R1. cbn [rmap bind]. rewrite E1. cbn [bind].
-      unfold Sat.tree_entry at 1. rewrite (r_relations_entry_from rs R3), R2. cbn [bind]. rewrite E2, E3.
+      rewrite (entry_from_view rs e R2 R3). cbn [bind]. rewrite E2, E3.
       repeat split; reflexivity. }
     destruct Hes as (es & E1 & E2 & E3). rewrite E1. cbn [rmap bind].
-    eexists. split; [reflexivity|]. unfold Sat.tree_field. rewrite (r_entries_relations_from es E3). exact E2.
+    eexists. split; [reflexivity|]. apply relations_from_view; assumption.
   Qed.
 
-  (* ---------------- trees outside the finding class have a typed view ---------------- *)
+
+  (* ---------------- trees outside the finding classes have a typed view ---------------- *)
   (* what Relation::version looks at *)
   Definition version_parts (r : rtree) : option (rtree * str) :=
     match find (is_node_of VERSION) (children r) with
@@ -466,8 +526,10 @@ Section SatP.
   Definition Known_nonstandard_operator (t : rtree) : Prop :=
     exists r cn vt, In r (alternatives t) /\ version_parts r = Some (cn, vt) /\ parse_vop (text cn) = None.
   Definition names_present (t : rtree) : Prop := forall r, In r (alternatives t) -> first_ident r <> None.
-  Definition versions_readable (t : rtree) : Prop :=
-    forall r cn vt, In r (alternatives t) -> version_parts r = Some (cn, vt) -> vparse vt <> None.
+  (* the second finding class: a version text the version type's reader rejects (for debversion:
+     an epoch above u32::MAX) *)
+  Definition Known_unreadable_version (t : rtree) : Prop :=
+    exists r cn vt, In r (alternatives t) /\ version_parts r = Some (cn, vt) /\ vparse vt = None.
 
   Lemma ll_version_parts r :
     ll_version V vparse r =
@@ -485,19 +547,21 @@ Section SatP.
   Qed.
 
   Theorem tree_field_total t :
-    names_present t -> versions_readable t -> ~ Known_nonstandard_operator t ->
+    names_present t -> ~ Known_nonstandard_operator t -> ~ Known_unreadable_version t ->
     exists f, tree_field t = Ok f.
   Proof.
-    intros Hn Hv Hk. unfold Sat.tree_field. apply mapM_total. intros e He.
+    intros Hn Hk Hv. unfold Sat.tree_field. apply mapM_total. intros e He.
     unfold Sat.tree_entry. apply mapM_total. intros r Hr.
     assert (Hin : In r (alternatives t)) by (unfold alternatives; apply in_flat_map; exists e; split; assumption).
     unfold Sat.tree_rel, ll_name. specialize (Hn r Hin).
     destruct (first_ident r) as [n|]; [|congruence]. cbn [bind].
     rewrite ll_version_parts. destruct (version_parts r) as [[cn vt]|] eqn:E; [|eexists; reflexivity].
     destruct (parse_vop (text cn)) eqn:Ep.
-    - specialize (Hv r cn vt Hin E). destruct (vparse vt); [eexists; reflexivity|congruence].
+    - destruct (vparse vt) eqn:Ev; [eexists; reflexivity|].
+      exfalso. apply Hv. exists r, cn, vt. repeat split; assumption.
     - exfalso. apply Hk. exists r, cn, vt. repeat split; assumption.
   Qed.
+
 
   (* ---------------- the decision table, for a comparison that is total on a domain --------- *)
   Variable cmp : V -> V -> comparison.
@@ -524,19 +588,28 @@ Section SatP.
     - destruct (lookup_version pv (r_name r)); reflexivity.
   Qed.
 
-  Theorem lossy_spec f pv : field_dom f -> lookup_dom pv ->
-    lossy_sat f pv = Ok (satisfied_spec cmp (lookup_version pv) f).
+  Theorem by_relation_spec f pv : field_dom f -> lookup_dom pv ->
+    by_relation V vcmp f pv = Ok (satisfied_spec cmp (lookup_version pv) f).
   Proof.
-    intros Hf Hp. unfold lossy_relations_satisfied_by, satisfied_spec.
+    intros Hf Hp. unfold by_relation, satisfied_spec.
     apply iter_all_ok. intros e He. apply iter_any_ok. intros r Hr.
     apply lossy_rel_spec; [|exact Hp].
     unfold field_dom in Hf. rewrite Forall_forall in Hf. specialize (Hf e He).
     rewrite Forall_forall in Hf. apply Hf. exact Hr.
   Qed.
 
-  Theorem ll_spec t f pv : tree_field t = Ok f -> field_dom f -> lookup_dom pv ->
-    ll_sat t pv = Ok (satisfied_spec cmp (lookup_version pv) f).
-  Proof. intros Ht Hf Hp. rewrite (ll_agree_lossy t f pv Ht). apply lossy_spec; assumption. Qed.
+  Definition closure_dom (g : str -> option V) : Prop := forall n v, g n = Some v -> Vok v.
+
+  Theorem lossy_spec f g : field_dom f -> closure_dom g ->
+    lossy_sat f g = Ok (satisfied_spec cmp g f).
+  Proof.
+    intros Hf Hg. transitivity (by_relation V vcmp f (LFn g)); [symmetry; exact (by_relation_induced f (LFn g))|].
+    apply (by_relation_spec f (LFn g) Hf). exact Hg.
+  Qed.
+
+  Theorem ll_spec t f g : tree_field t = Ok f -> field_dom f -> closure_dom g ->
+    ll_sat t g = Ok (satisfied_spec cmp g f).
+  Proof. intros Ht Hf Hg. rewrite (ll_agree_lossy t f g Ht). apply lossy_spec; assumption. Qed.
 
   (* the table in words *)
   Definition alt_satisfied (installed : str -> option V) (r : rel) : Prop :=
@@ -614,25 +687,26 @@ Fixpoint s2l (s : string) : str :=
 Definition deb_ok (v : version) : Prop := ver_safe v = true.
 Definition deb_tree_field := tree_field version parse_version.
 
-Theorem deb_sat_spec t f pv :
-  deb_tree_field t = Ok f -> field_dom version deb_ok f -> lookup_dom version deb_ok pv ->
-  deb_ll_sat t pv = Ok (deb_spec (lookup_version pv) f) /\
-  deb_lossy_sat f pv = Ok (deb_spec (lookup_version pv) f).
+Theorem deb_sat_spec t f g :
+  deb_tree_field t = Ok f -> field_dom version deb_ok f -> closure_dom version deb_ok g ->
+  deb_ll_sat t g = Ok (deb_spec g f) /\
+  deb_lossy_sat f g = Ok (deb_spec g f).
 Proof.
   intros Ht Hf Hp. split.
-  - apply (ll_spec version ver_cmp parse_version DebVersion.vcmp deb_ok ver_cmp_safe t f pv Ht Hf Hp).
-  - apply (lossy_spec version ver_cmp DebVersion.vcmp deb_ok ver_cmp_safe f pv Hf Hp).
+  - apply (ll_spec version ver_cmp parse_version DebVersion.vcmp deb_ok ver_cmp_safe t f g Ht Hf Hp).
+  - apply (lossy_spec version ver_cmp DebVersion.vcmp deb_ok ver_cmp_safe f g Hf Hp).
 Qed.
 
 (* the unguarded statement is false for debversion 0.4.4: a digit run above i32::MAX *)
 Definition big_version : version := mk_version None (s2l "0~20240101123456") None.
 Lemma deb_i32_witness :
   let f := [[mk_rel (s2l "a") (Some (OpGe, mk_version None (s2l "0~2024") None))]] in
-  let pv := LPair (s2l "a") big_version in
+  let g := fun n => if str_eqb n (s2l "a") then Some big_version else None in
   ver_safe big_version = false /\
   parse_version (s2l "0~20240101123456") = Some big_version /\
-  deb_lossy_sat f pv = Panic 2%N /\
-  deb_spec (lookup_version pv) f = true.
+  deb_lossy_sat f g = Panic 2%N /\
+  deb_by_relation f (LPair (s2l "a") big_version) = Panic 2%N /\
+  deb_spec g f = true.
 Proof. vm_compute. repeat split; reflexivity. Qed.
 
 (* an operator that is none of the five: the strict reader accepts the field, the evaluator panics *)
@@ -640,8 +714,8 @@ Lemma deb_nonstandard_operator_witness :
   let s := s2l "a (> 1)" in
   exists t, relations_from_str s = Ok t /\
             Known_nonstandard_operator t /\
-            names_present t /\ versions_readable version parse_version t /\
-            deb_ll_sat t (LFn (fun _ => parse_version (s2l "2"))) = Panic 11%N.
+            names_present t /\ ~ Known_unreadable_version version parse_version t /\
+            deb_ll_sat t (fun _ => parse_version (s2l "2")) = Panic 11%N.
 Proof.
   cbv zeta.
   let x := eval vm_compute in (relations_from_str (s2l "a (> 1)")) in
@@ -649,12 +723,38 @@ Proof.
   match goal with |- Known_nonstandard_operator ?t /\ _ =>
     let a := eval vm_compute in (alternatives t) in
     assert (Ha : alternatives t = a) by (vm_compute; reflexivity) end.
-  unfold Known_nonstandard_operator, names_present, versions_readable. rewrite Ha.
+  unfold Known_nonstandard_operator, names_present, Known_unreadable_version. rewrite Ha.
   split; [|split; [|split]].
   - eexists _, _, _. split; [left; reflexivity|]. split; vm_compute; reflexivity.
   - intros r [<-|[]]. vm_compute. discriminate.
-  - intros r cn vt [<-|[]] E. vm_compute in E. injection E as <- <-. vm_compute. discriminate.
+  - intros (r & cn & vt & [<-|[]] & E & Hn). vm_compute in E. injection E as <- <-. vm_compute in Hn. discriminate.
   - vm_compute. reflexivity.
+Qed.
+
+(* a version text debversion rejects (epoch above u32::MAX): the strict reader accepts the field
+   (any run of IDENT and ":" tokens is a version to it), Relation::version() unwraps the error *)
+Lemma deb_unreadable_version_witness :
+  let s := s2l "a (>= 4294967296:1)" in
+  exists t, relations_from_str s = Ok t /\
+            Known_unreadable_version version parse_version t /\
+            names_present t /\ ~ Known_nonstandard_operator t /\
+            deb_ll_sat t (fun _ => parse_version (s2l "2")) = Panic 12%N /\
+            parse_version (s2l "4294967296:1") = None /\ parse_version (s2l "4294967295:1") <> None.
+Proof.
+  cbv zeta.
+  let x := eval vm_compute in (relations_from_str (s2l "a (>= 4294967296:1)")) in
+  match x with Ok ?t => exists t; split; [vm_compute; reflexivity|] end.
+  match goal with |- Known_unreadable_version _ _ ?t /\ _ =>
+    let a := eval vm_compute in (alternatives t) in
+    assert (Ha : alternatives t = a) by (vm_compute; reflexivity) end.
+  unfold Known_nonstandard_operator, names_present, Known_unreadable_version. rewrite Ha.
+  split; [|split; [|split; [|split; [|split]]]].
+  - eexists _, _, _. split; [left; reflexivity|]. split; [vm_compute; reflexivity|]. vm_compute. reflexivity.
+  - intros r [<-|[]]. vm_compute. discriminate.
+  - intros (r & cn & vt & [<-|[]] & E & Hn). vm_compute in E. injection E as <- <-. vm_compute in Hn. discriminate.
+  - vm_compute. reflexivity.
+  - vm_compute. reflexivity.
+  - vm_compute. discriminate.
 Qed.
 
 (* ---- Display then FromStr gives the version back, for every version FromStr can produce ---- *)
@@ -764,11 +864,13 @@ Proof.
   intros [text H]. eapply parse_show_version. exact H.
 Qed.
 
+
 (* fields built through the constructors, or through set_version, from versions that were read
    from text: the typed view is the field *)
 Theorem deb_constructed f : Forall (Forall readable_rel) f ->
-  (exists t, deb_build_field f = Ok t /\ deb_tree_field t = Ok f) /\
-  (exists t, deb_sv_field f = Ok t /\ deb_tree_field t = Ok f).
+  deb_tree_field (deb_build_field f) = Ok f /\
+  (Forall (Forall (fun r => parsed_start_ok (r_name r))) f ->
+   exists t, deb_sv_field f = Ok t /\ deb_tree_field t = Ok f).
 Proof.
   intros H.
   assert (H' : Forall (Forall (rel_roundtrips version parse_version show_version)) f).
@@ -776,19 +878,6 @@ Proof.
   split.
   - apply (build_field_view version parse_version show_version parse_version_empty f H').
   - apply (sv_field_view version parse_version show_version parse_version_empty f H').
-Qed.
-
-(* set_version before the fix: GreaterThan / LessThan written with one character *)
-Lemma deb_set_version_before_fix_refuted :
-  exists one two t,
-    parse_version (s2l "1") = Some one /\ parse_version (s2l "2") = Some two /\
-    deb_sv_field_before_fix [[mk_rel (s2l "a") (Some (OpGt, one))]] = Ok t /\
-    text t = s2l "a (> 1)" /\
-    deb_ll_sat t (LPair (s2l "a") two) = Panic 11%N /\
-    deb_spec (lookup_version (LPair (s2l "a") two)) [[mk_rel (s2l "a") (Some (OpGt, one))]] = true.
-Proof.
-  eexists _, _, _. split; [vm_compute; reflexivity|]. split; [vm_compute; reflexivity|].
-  split; [vm_compute; reflexivity|]. repeat split; vm_compute; reflexivity.
 Qed.
 
 (* ------------------------------------------------------------------ the summary statement *)
@@ -811,51 +900,46 @@ Definition safe_readable (v : version) : Prop := ver_safe v = true /\ readable_v
 Definition good_rel (r : rel version) : Prop :=
   match r_ver r with Some (_, v) => safe_readable v | None => True end.
 
-(* one field, one assignment, every evaluator and every lookup form: the same answer, and it is
-   the decision table *)
+(* one field, one assignment, every evaluator with every lookup form it accepts: the same answer,
+   and it is the decision table.  The closure goes to the crate's field-level evaluators; the map
+   and the pair can only be given to lossy::Relation::satisfied_by, alternative by alternative
+   ([deb_by_relation]). *)
 Theorem deb_main (f : list (list (rel version))) (asg : list (str * version)) :
   Forall (Forall good_rel) f -> Forall (fun kv => ver_safe (snd kv) = true) asg ->
+  Forall (Forall (fun r => parsed_start_ok (r_name r))) f ->
   let installed := find_last asg in
   let answer := deb_spec installed f in
-  exists t_new t_set,
-    deb_build_field f = Ok t_new /\ deb_sv_field f = Ok t_set /\
-    deb_ll_sat t_new (LFn installed) = Ok answer /\ deb_ll_sat t_new (LMap (hm_of_list asg)) = Ok answer /\
-    deb_ll_sat t_set (LFn installed) = Ok answer /\ deb_ll_sat t_set (LMap (hm_of_list asg)) = Ok answer /\
-    deb_lossy_sat f (LFn installed) = Ok answer /\ deb_lossy_sat f (LMap (hm_of_list asg)) = Ok answer /\
-    (forall n v, asg = [(n, v)] ->
-       deb_ll_sat t_new (LPair n v) = Ok answer /\ deb_ll_sat t_set (LPair n v) = Ok answer /\
-       deb_lossy_sat f (LPair n v) = Ok answer).
+  exists t_set,
+    deb_sv_field f = Ok t_set /\
+    deb_ll_sat (deb_build_field f) installed = Ok answer /\
+    deb_ll_sat t_set installed = Ok answer /\
+    deb_lossy_sat f installed = Ok answer /\
+    deb_by_relation f (LFn installed) = Ok answer /\
+    deb_by_relation f (LMap (hm_of_list asg)) = Ok answer /\
+    (forall n v, asg = [(n, v)] -> deb_by_relation f (LPair n v) = Ok answer).
 Proof.
-  intros Hf Ha installed answer.
+  intros Hf Ha Hp installed answer.
   assert (Hread : Forall (Forall readable_rel) f).
   { eapply Forall_impl; [|exact Hf]. intros e He. eapply Forall_impl; [|exact He].
     intros r. unfold good_rel, readable_rel. destruct (r_ver r) as [[o v]|]; [intros [_ H]; exact H|trivial]. }
   assert (Hdom : field_dom version deb_ok f).
   { eapply Forall_impl; [|exact Hf]. intros e He. eapply Forall_impl; [|exact He].
     intros r. unfold good_rel, rel_dom. destruct (r_ver r) as [[o v]|]; [intros [H _]; exact H|trivial]. }
-  destruct (deb_constructed f Hread) as [(t1 & B1 & V1) (t2 & B2 & V2)].
-  assert (Hfn : lookup_dom version deb_ok (LFn installed)).
-  { intros n v H. cbn [lookup_version] in H. destruct (find_last_in asg n v H) as [k Hk].
+  destruct (deb_constructed f Hread) as [V1 Hsv]. destruct (Hsv Hp) as (t2 & B2 & V2).
+  assert (Hfn : closure_dom version deb_ok installed).
+  { intros n v H. destruct (find_last_in asg n v H) as [k Hk].
     rewrite Forall_forall in Ha. apply (Ha (k, v) Hk). }
-  assert (Hsame : forall n, lookup_version (LMap (hm_of_list asg)) n = lookup_version (LFn installed) n).
-  { intros n. apply lookup_map_of_list. }
-  exists t1, t2. split; [exact B1|]. split; [exact B2|].
-  destruct (deb_sat_spec t1 f (LFn installed) V1 Hdom Hfn) as [L1 Y1].
-  destruct (deb_sat_spec t2 f (LFn installed) V2 Hdom Hfn) as [L2 _].
-  cbn [lookup_version] in L1, L2, Y1. fold installed in L1, L2, Y1.
-  split; [exact L1|]. split.
-  { unfold deb_ll_sat. rewrite (ll_sat_ext version ver_cmp parse_version t1 _ _ Hsame). exact L1. }
-  split; [exact L2|]. split.
-  { unfold deb_ll_sat. rewrite (ll_sat_ext version ver_cmp parse_version t2 _ _ Hsame). exact L2. }
-  split; [exact Y1|]. split.
-  { unfold deb_lossy_sat. rewrite (lossy_sat_ext version ver_cmp f _ _ Hsame). exact Y1. }
-  intros n v ->.
-  assert (Hp : forall m, lookup_version (LPair n v) m = lookup_version (LFn installed) m).
-  { intros m. subst installed. cbn [lookup_version find_last]. reflexivity. }
-  split; [|split].
-  - unfold deb_ll_sat. rewrite (ll_sat_ext version ver_cmp parse_version t1 _ _ Hp). exact L1.
-  - unfold deb_ll_sat. rewrite (ll_sat_ext version ver_cmp parse_version t2 _ _ Hp). exact L2.
-  - unfold deb_lossy_sat. rewrite (lossy_sat_ext version ver_cmp f _ _ Hp). exact Y1.
+  exists t2. split; [exact B2|].
+  destruct (deb_sat_spec (deb_build_field f) f installed V1 Hdom Hfn) as [L1 Y1].
+  destruct (deb_sat_spec t2 f installed V2 Hdom Hfn) as [L2 _].
+  split; [exact L1|]. split; [exact L2|]. split; [exact Y1|].
+  unfold deb_by_relation. split; [|split].
+  - rewrite by_relation_induced. exact Y1.
+  - rewrite by_relation_induced.
+    rewrite (lossy_sat_ext version ver_cmp f _ installed (lookup_map_of_list version asg)). exact Y1.
+  - intros n v ->. rewrite by_relation_induced.
+    rewrite (lossy_sat_ext version ver_cmp f _ installed); [exact Y1|].
+    intros m. subst installed. cbn [lookup_version find_last]. reflexivity.
 Qed.
 
 (* ------------------------------------------------------------------ statements assembled for props/C12.v *)
@@ -863,14 +947,14 @@ Lemma c12_spec :
   forall (V : Type) (vcmp : V -> V -> res comparison) (vparse : str -> option V)
          (cmp : V -> V -> comparison) (Vok : V -> Prop),
   (forall a b, Vok a -> Vok b -> vcmp a b = Ok (cmp a b)) ->
-  forall (t : rtree) (f : list (list (rel V))) (pv : lookup V),
-  tree_field V vparse t = Ok f -> field_dom V Vok f -> lookup_dom V Vok pv ->
-  ll_relations_satisfied_by V vcmp vparse t pv = Ok (satisfied_spec cmp (lookup_version pv) f) /\
-  lossy_relations_satisfied_by V vcmp f pv = Ok (satisfied_spec cmp (lookup_version pv) f).
+  forall (t : rtree) (f : list (list (rel V))) (g : str -> option V),
+  tree_field V vparse t = Ok f -> field_dom V Vok f -> (forall n v, g n = Some v -> Vok v) ->
+  ll_relations_satisfied_by V vcmp vparse t g = Ok (satisfied_spec cmp g f) /\
+  lossy_relations_satisfied_by V vcmp f g = Ok (satisfied_spec cmp g f).
 Proof.
-  intros V vcmp vparse cmp Vok H t f pv Ht Hf Hp. split.
-  - exact (ll_spec V vcmp vparse cmp Vok H t f pv Ht Hf Hp).
-  - exact (lossy_spec V vcmp cmp Vok H f pv Hf Hp).
+  intros V vcmp vparse cmp Vok H t f g Ht Hf Hp. split.
+  - exact (ll_spec V vcmp vparse cmp Vok H t f g Ht Hf Hp).
+  - exact (lossy_spec V vcmp cmp Vok H f g Hf Hp).
 Qed.
 
 Lemma c12_table_in_words :
@@ -892,21 +976,33 @@ Proof.
     destruct (r_ver r) as [[[] w]|]; exact H.
 Qed.
 
+
 Lemma c12_lookup :
   forall (V : Type) (vcmp : V -> V -> res comparison) (vparse : str -> option V),
-  (forall (t : rtree) (f : list (list (rel V))) (p q : lookup V),
-     (forall n, lookup_version p n = lookup_version q n) ->
-     ll_relations_satisfied_by V vcmp vparse t p = ll_relations_satisfied_by V vcmp vparse t q /\
-     lossy_relations_satisfied_by V vcmp f p = lossy_relations_satisfied_by V vcmp f q) /\
+  (* the three field/entry-level evaluators take a closure and depend on it pointwise *)
+  (forall (t : rtree) (f : list (list (rel V))) (g h : str -> option V),
+     (forall n, g n = h n) ->
+     ll_relations_satisfied_by V vcmp vparse t g = ll_relations_satisfied_by V vcmp vparse t h /\
+     lossy_relations_satisfied_by V vcmp f g = lossy_relations_satisfied_by V vcmp f h) /\
+  (* lossy::Relation::satisfied_by takes any form and depends on the induced function only *)
+  (forall (r : rel V) (pv : lookup V),
+     lossy_relation_satisfied_by V vcmp r pv = lossy_relation_satisfied_by V vcmp r (LFn (lookup_version pv))) /\
+  (forall (f : list (list (rel V))) (pv : lookup V),
+     by_relation V vcmp f pv = lossy_relations_satisfied_by V vcmp f (lookup_version pv)) /\
+  (* the induced functions *)
   (forall (l : list (str * V)) n, lookup_version (LMap (hm_of_list l)) n = find_last l n) /\
-  (forall (m : list (str * V)) n, lookup_version (LMap m) n = lookup_version (LFn (hm_get m)) n) /\
+  (forall (m : list (str * V)) n, lookup_version (LMap m) n = hm_get m n) /\
+  (forall (g : str -> option V) n, lookup_version (LFn g) n = g n) /\
   (forall (k : str) (v : V) n,
-     lookup_version (LPair k v) n = lookup_version (LFn (fun n' => if str_eqb n' k then Some v else None)) n /\
+     lookup_version (LPair k v) n = (if str_eqb n k then Some v else None) /\
      lookup_version (LPair k v) n = lookup_version (LMap (hm_of_list [(k, v)])) n).
 Proof.
-  intros V vcmp vparse. split; [|split; [|split]].
-  - intros t f p q H. split; [apply ll_sat_ext; exact H|apply lossy_sat_ext; exact H].
+  intros V vcmp vparse. split; [|split; [|split; [|split; [|split; [|split]]]]].
+  - intros t f g h H. split; [apply ll_sat_ext; exact H|apply lossy_sat_ext; exact H].
+  - apply lossy_rel_sat_induced.
+  - apply by_relation_induced.
   - apply lookup_map_of_list.
+  - reflexivity.
   - reflexivity.
   - intros k v n. split; [reflexivity|]. rewrite lookup_map_of_list. cbn [lookup_version find_last].
     reflexivity.
@@ -938,17 +1034,18 @@ Lemma c12_debversion_safe :
   ver_cmp x y = Ok (DebVersion.vcmp x y) /\ ver_eq x y = Ok (veq x y).
 Proof. intros x y Hx Hy. split; [apply ver_cmp_safe|apply ver_eq_safe]; assumption. Qed.
 
+
 Lemma c12_full_refuted :
-  ~ (forall (t : rtree) (f : list (list (rel version))) (pv : lookup version),
+  ~ (forall (t : rtree) (f : list (list (rel version))) (g : str -> option version),
      tree_field version parse_version t = Ok f ->
-     deb_ll_sat t pv = Ok (deb_spec (lookup_version pv) f) /\
-     deb_lossy_sat f pv = Ok (deb_spec (lookup_version pv) f)).
+     deb_ll_sat t g = Ok (deb_spec g f) /\
+     deb_lossy_sat f g = Ok (deb_spec g f)).
 Proof.
   intros H.
   pose (w := mk_version None (s2l "0~2024") None).
   pose (f := [[mk_rel (s2l "a") (Some (OpGe, w))]]).
-  destruct (build_field_view version parse_version show_version parse_version_empty f) as (t & _ & Ht).
-  { repeat constructor. }
-  destruct (H t f (LPair (s2l "a") big_version) Ht) as [_ H2].
+  assert (Ht : tree_field version parse_version (deb_build_field f) = Ok f).
+  { apply (build_field_view version parse_version show_version parse_version_empty f). repeat constructor. }
+  destruct (H _ f (fun n => if str_eqb n (s2l "a") then Some big_version else None) Ht) as [_ H2].
   vm_compute in H2. discriminate.
 Qed.
